@@ -482,6 +482,8 @@ def gen_case(g, phones, sil, mode, nadds):
         ops += ["dump", f"wid {hx(b'x')}"]
         return ops, must
     have_search = False
+    g.text_probes = r.chance(0.5)
+    g.hit("around_add_text_probes(align/fsg as query)", "on" if g.text_probes else "off")
     if mode == "dec":
         ops.append("tabs")
         for _ in range(r.range(0, 3)):
@@ -607,8 +609,9 @@ def probe_op(g, o, key, mode, where):
         kind = r.weighted([("lookup", 45), ("wid", 18), ("align-last", 17), ("align-only", 6), ("fsg", 6), ("chain", 4), ("intern", 4)])
     else:
         kind = r.weighted([("lookup", 38), ("wid", 14), ("align-first", 22), ("align-only", 6), ("fsg", 10), ("chain", 5), ("intern", 5)])
-    if kind in ("align-last", "align-first", "align-only", "fsg") and not probe_text_ok(key):
-        kind = "lookup"
+    if kind in ("align-last", "align-first", "align-only", "fsg") and not (probe_text_ok(key) and getattr(g, "text_probes", True)):
+        kind = "lookup"   # (a grammar / alignment text loads a search for good: half of the histories keep these out of the
+        #                    probes so that additions WITHOUT a search loaded stay frequent)
     others = [x for x, _, _ in o.words if probe_text_ok(x)]
     if kind in ("align-last", "align-first") and not others:
         kind = "align-only"
@@ -661,7 +664,8 @@ def around_add_post(g, o, ops, w, mode, pre, accepted, ctx):
         g.hit("around_add_pattern", f"{'hit' if pre['hit'] else 'miss'}->{'accepted' if accepted else 'rejected'}->"
                                     f"{'same key' if key == pre['key'] else 'added word'}:{'hit' if o.wid(key) >= 0 else 'miss'}")
         if not pre["hit"] and accepted and o.wid(key) >= 0 and key == pre["key"]:
-            g.hit("around_add_miss_then_found", f"{pre['kind']}->{ctx}->{kind}")
+            g.hit("around_add_miss_then_found(query before->query after)", f"{pre['kind']}->{kind}")
+            g.hit("around_add_miss_then_found(the addition)", ctx)
     else:
         g.hit("around_add_pattern", f"(no query)->{'accepted' if accepted else 'rejected'}->added word")
     return sets
